@@ -690,8 +690,9 @@ def load_orders(ctx, rng, thorough):
 
 def graphs_come_and_go(ctx, rng, rounds):
     """graphs over ONE set of labels but with different edges are built, asked through the module-level helpers and the graph's own
-    methods, and dropped (collected) one after the other: what an earlier graph answered - it may have lived at the same address - must
-    not show in the answers of a later one. Expected answers: a closure computed here from each edge list."""
+    methods, and dropped (collected) in batches: what an earlier graph answered - it may have lived at the same address - must not
+    show in the answers of a later one. Expected answers: a closure computed here from each edge list. The addresses of dead graphs
+    are remembered, so the evidence says how often a later graph really was allocated where an earlier one had been."""
     import gc
     from hpotk.model import TermId
     try:
@@ -701,35 +702,45 @@ def graphs_come_and_go(ctx, rng, rounds):
         return
     labels = [f'HP:{i:07d}' for i in range(1, 8)]
     tids = [TermId.from_curie(x) for x in labels]
+    ctx.case(['come-and-go', rounds], True, 'graphs that come and go (module-level helpers)')
+    plans = []
     for r in range(rounds):
         par = {j: sorted(set(rng.sample(range(j), min(j, rng.choice([1, 1, 2]))))) for j in range(1, len(labels))}
-        edges = [(labels[j], labels[i]) for j, ps in par.items() for i in ps]
         anc = {0: set()}
         for j in range(1, len(labels)):
             anc[j] = set(par[j]).union(*(anc[i] for i in par[j]))
-        f = gl.FACTORIES[r % 3]
-        g = gl.build_impl(f, edges)
-        ctx.case(['come-and-go', f, edges], True, 'graphs that come and go (module-level helpers)')
-        problem = None
-        try:
-            for a in range(len(labels)):
-                for b in range(len(labels)):
-                    got = exists_path(g, tids[a], tids[b])
-                    if got is not (b in anc[a]):
-                        problem = f'exists_path({labels[a]}, {labels[b]}) = {got!r}, the edges say {b in anc[a]}'
-                got = sorted(t.value for t in get_ancestors(g, tids[a]))
-                if got != sorted(labels[i] for i in anc[a]):
-                    problem = f'get_ancestors({labels[a]}) = {got}, the edges say {sorted(labels[i] for i in anc[a])}'
-                got = sorted(t.value for t in get_descendants(g, tids[a]))
-                if got != sorted(labels[j] for j in anc if a in anc[j]):
-                    problem = f'get_descendants({labels[a]}) = {got}'
-        except Exception as e:  # noqa
-            problem = f'raises {type(e).__name__}: {e}'
-        if problem:
-            ctx.violation('come-and-go', {'case': {'kind': 'come-and-go', 'round': r, 'factory': f, 'edges': edges}, 'impl': problem,
-                                          'theorem': 'Hpv.Props.C12.eval_history_free'})
-            return
-        del g
+        plans.append(([(labels[j], labels[i]) for j, ps in par.items() for i in ps], anc))
+    dead = set()
+    B = 25
+    for start in range(0, rounds, B):
+        f = gl.FACTORIES[(start // B) % 3]
+        batch = [(gl.build_impl(f, edges), edges, anc) for edges, anc in plans[start:start + B]]
+        for g, edges, anc in batch:
+            ctx.count('graphs-come-and-go')
+            if id(g) in dead:
+                ctx.count('graphs-come-and-go.at-the-address-of-a-dead-graph')
+            problem = None
+            try:
+                for a in range(len(labels)):
+                    for b in range(len(labels)):
+                        got = exists_path(g, tids[a], tids[b])
+                        if got is not (b in anc[a]):
+                            problem = f'exists_path({labels[a]}, {labels[b]}) = {got!r}, the edges say {b in anc[a]}'
+                    got = sorted(t.value for t in get_ancestors(g, tids[a]))
+                    if got != sorted(labels[i] for i in anc[a]):
+                        problem = f'get_ancestors({labels[a]}) = {got}, the edges say {sorted(labels[i] for i in anc[a])}'
+                    got = sorted(t.value for t in get_descendants(g, tids[a]))
+                    if got != sorted(labels[j] for j in anc if a in anc[j]):
+                        problem = f'get_descendants({labels[a]}) = {got}'
+            except Exception as e:  # noqa
+                problem = f'raises {type(e).__name__}: {e}'
+            if problem:
+                ctx.violation('come-and-go', {'case': {'kind': 'come-and-go', 'factory': f, 'edges': edges,
+                                                       'address_was_used_by_a_dead_graph': id(g) in dead}, 'impl': problem,
+                                              'theorem': 'Hpv.Props.C12.eval_history_free'})
+                return
+        dead.update(id(g) for g, _, _ in batch)
+        del batch, g
         gc.collect()
 
 
@@ -738,7 +749,7 @@ def run(ctx):
     thorough = ctx.tier == 'thorough'
     with warnings.catch_warnings():
         warnings.simplefilter('ignore')
-        graphs_come_and_go(ctx, rng, 400 if thorough else 150)
+        graphs_come_and_go(ctx, rng, 3000 if thorough else 900)
     fixed = [[('HP:2', 'HP:1'), ('HP:3', 'HP:1'), ('HP:4', 'HP:2'), ('HP:4', 'HP:3'), ('HP:5', 'HP:4'), ('HP:6', 'HP:4')],
              [('HP:2', 'HP:1'), ('HP:3', 'HP:2'), ('HP:4', 'HP:3'), ('HP:5', 'HP:4'), ('HP:5', 'HP:2')]]
     for edges in fixed:
